@@ -57,11 +57,11 @@ def run_pylogix(job):
         st = status_code(res.Status)
         t = cfg["tags"][r["tag"] - 1]["type"] if r["tag"] else "INT"
         if st != 0:
-            return {"st": st, "ext": [65535], "vals": [], "ok": False}
+            return {"st": st, "ext": [65535], "vals": [], "ok": False, "bytes": []}
         if r["svc"] == "write":
-            return {"st": 0, "ext": [], "vals": [], "ok": True}
+            return {"st": 0, "ext": [], "vals": [], "ok": True, "bytes": []}
         v = res.Value if isinstance(res.Value, list) else [res.Value]
-        return {"st": 0, "ext": [], "vals": [sim.enc_elem(t, x) for x in v], "ok": True}
+        return {"st": 0, "ext": [], "vals": [sim.enc_elem(t, x) for x in v], "ok": True, "bytes": []}
     try:
         i = 0
         while i < len(ops):
